@@ -850,6 +850,11 @@ class C10(Prop):
             "response marker or error class), reader done, waitForResponses result class. EVERY response object handed to a callback "
             "is kept and read again at the end of the case (name, marker, digest of its deterministic encoding): a response that "
             "changed after the callback returned shows as a disagreement with the model's `fired` values. "
+            "limits wiring (every run, first): action 15 = the scripted client writes an answer padded to an encoded size given "
+            "RELATIVE to the two response-size limits of the compiled code (server limit -1 / exactly / +1, 2 MiB, client limit -1 / "
+            "exactly: must be delivered to its own callback with the other pending tests unaffected; client limit +1: rejected at the "
+            "prefix), in 6 positions / interleavings, two such answers in one run, random sizes inside the window; the model predicts "
+            "the outcome from its wiring table limit_of. "
             "c10.proc: free-running client function on the real runInProcess (no gates) that reads r of n requests, answers a "
             "permutation of a subset, reads 0/1/4/6 bytes of the next request and RETURNS nil / an error while the sender is inside "
             "that write; compared with the model's canonical schedule (proc_script): per request result + callbacks, reader done, "
@@ -858,7 +863,9 @@ class C10(Prop):
     trusted_base = ("Coq 8.16.1 kernel (vm_compute used, native_compute not)", "extraction (ExtrOcamlBasic only) + ocaml/driver.ml",
                     "vlib generators/comparator, Go overlay harness (harness/C10)",
                     "modelled not verified: io.Pipe semantics, sync.Mutex, atomic.Bool/Pointer, goroutine scheduling (one action per "
-                    "lock region / atomic op / pipe op), protobuf decoding (the model decodes only the message shapes the harness writes)")
+                    "lock region / atomic op / pipe op), protobuf decoding (the model decodes only the message shapes the harness writes)",
+                    "which limit constant consumeOutput's call of ReadDelimitedMessage is handed: the model's table limit_of is written by "
+                    "hand (both constants are regenerated from the code) and tied to the code behaviourally, not by parsing the call site")
     assumptions = ("every shared variable of clientProcessRunner is accessed only in the lock regions / atomic operations that the "
                    "model's actions stand for (by inspection of client_runner.go; supported by the -race runs)",
                    "local steps merged with the neighbouring shared step of the same goroutine commute with the other actors' steps "
@@ -878,14 +885,20 @@ class C10(Prop):
                   "waitForResponses returns; a request whose sendRequest returned an error (err check, duplicate, closed, write failed by "
                   "marshalling / closed pipe / any other pipe error) is never called back, and after a failed write its name is free "
                   "again; the end of the client process - function returned nil OR an error, at any point - closes stdin so the writer in "
-                  "flight returns; from every reachable state the system can be driven to completion (no deadlock). "
+                  "flight returns; from every reachable state the system can be driven to completion (no deadlock); the reader of the client's "
+                  "output is handed the client limit, not the server-response limit: for ALL sizes an answer up to the client limit - the "
+                  "window between the two regenerated constants is proved non-empty - is delivered to its own test's callback exactly once "
+                  "with every other pending test untouched, a larger one stops the reader at the prefix (limits_wired). "
                   "The model is tied to client_runner.go by forced-schedule differential runs on every check.")
     level_note = ("Trusted: Coq kernel, extraction, OCaml driver, harness. Model-code correspondence is sampled (systematic + "
                   "exhaustive small scope + random), not proved; only schedules the harness can force are compared (a sender cannot "
                   "be held between its err check and sendMu.Lock unless sendMu is held by a writer; the reader's closeSend and drain "
                   "run through once sendMu is free). Go's mutex/pipe/atomic semantics and data-race freedom are assumed (tested "
                   "with -race). Time-outs are not modelled. A panic of an in-process client function is not caught by "
-                  "runInProcess (it ends the whole test binary) and is not modelled; cmdProcess (OS processes) is C04's.")
+                  "runInProcess (it ends the whole test binary) and is not modelled; cmdProcess (OS processes) is C04's. "
+                  "Multi-megabyte answers are not built inside the model: the decoder replaces a padded answer the wiring lets through by "
+                  "the plain answer's frame (proved equivalent at a frame boundary: padded_answer_read_like_plain); the Go side writes the "
+                  "real bytes. The server-response reader itself belongs to C09 / C11.")
     technique = "Coq invariant proofs over arbitrary action lists; forced-schedule differential against the real runner; -race stress"
 
     def nontrivial(self, case, res):
